@@ -25,7 +25,7 @@ SHELLS = {"fresh:list", "fresh:tuple", "fresh:set", "fresh:dict", "fresh:comp", 
 SHELL_PASS = {"arg0:enumerate", "arg0:list", "arg0:sorted", "arg0:tuple", "arg0:set", "arg0:reversed", "arg0:iter", "call:items", "call:keys",
               "call:values", "call:copy", "arg0:dict"}
 MAXLEN = 14
-MAXPATHS = 400
+MAXPATHS = 1500
 
 
 KEY_ITER_PASS = {"arg0:enumerate", "arg0:list", "arg0:sorted", "arg0:tuple", "arg0:set", "arg0:reversed", "arg0:iter", "call:keys"}
@@ -140,6 +140,9 @@ class Prov:
             if step.startswith("unpack:") and len(p) >= 2 and p[-1] == "elem" and p[-2].endswith(":zip") and p[-2].startswith("arg") \
                     and p[-2][3:-4].isdigit() and p[-2][3:-4] != step[7:]:
                 continue  # the i-th component of an element of zip(a0, a1, ..) comes from a_i only
+            if p[-1] == step and step.startswith(("arg", "kw:")):
+                out.add(p)      # a value fed again through the same call position (loop-carried accumulators): one step says it
+                continue
             out.add(p + (step,) if len(p) < MAXLEN else p)
         return out
 
